@@ -16,7 +16,7 @@
 //	rawB     … of request B
 //	--- parameters obtained from Go / fasthttp (recomputed on replay) ---
 //	peerinfo rip=<hex RemoteIP bytes>;str=<hex RemoteIP().String()>;lb=0/1;pr=0/1;ll=0/1
-//	pinfo    per Proxies entry, '|'-separated: ip:<hex canonical String()>:<hex 16 bytes> | cidr:<hex net ip>:<hex mask> | bad
+//	pinfo    per Proxies entry, '|'-separated: p:<hex ParseIP(e).To16() or ->:<hex its String() or ->:<hex ParseCIDR(e) net ip or ->:<hex mask or ->
 //	nphdr    hex ProxyHeader as fasthttp normalises it
 //	viewA    hexlist k,v… RequestHeader.VisitAll of request A;  uhA hex URI().Host()
 //	viewB, uhB
@@ -102,13 +102,10 @@ func buildRequest(host string, raw []string) (*fasthttp.Request, bool) {
 	return req, true
 }
 
-func observe(c cfgIn, cn connIn, raw []string) (view []string, uriHost string, obs string, ok bool) {
-	defer func() {
-		if r := recover(); r != nil {
-			obs = "panic"
-			ok = true
-		}
-	}()
+// newApp builds the application of one case. Both requests of the pair go through the SAME app, one
+// after the other, so that the second one is served by the pooled Ctx the first one used: whatever a
+// gated accessor caches (BaseURL) or leaves behind must not reach the next request.
+func newApp(c cfgIn, off int) func(*fasthttp.RequestCtx) string {
 	app := fiber.New(fiber.Config{
 		TrustProxy:         c.trust,
 		TrustProxyConfig:   fiber.TrustProxyConfig{Proxies: c.proxies, Loopback: c.loopback, Private: c.private, LinkLocal: c.linkLocal},
@@ -116,14 +113,38 @@ func observe(c cfgIn, cn connIn, raw []string) (view []string, uriHost string, o
 		EnableIPValidation: c.validate,
 	})
 	var out string
-	app.Get("/p", func(x fiber.Ctx) error {
+	h := func(x fiber.Ctx) error {
+		// BaseURL first on the pooled Ctx: a value cached by the previous request would show here
+		base := x.BaseURL()
 		sub := x.Subdomains()
-		subo := x.Subdomains(cn.off)
+		subo := x.Subdomains(off)
 		out = fmt.Sprintf("t=%s;ip=%s;ips=%s;host=%s;hn=%s;sch=%s;base=%s;sec=%s;sub=%s;subo=%s;proto=%s",
 			gen.B(x.IsProxyTrusted()), gen.Hex(x.IP()), gen.HexList(x.IPs()), gen.Hex(x.Host()), gen.Hex(x.Hostname()),
-			gen.Hex(x.Scheme()), gen.Hex(x.BaseURL()), gen.B(x.Secure()), gen.HexList(sub), gen.HexList(subo), gen.Hex(x.Protocol()))
+			gen.Hex(x.Scheme()), gen.Hex(base), gen.B(x.Secure()), gen.HexList(sub), gen.HexList(subo), gen.Hex(x.Protocol()))
+		if again := x.BaseURL(); again != base {
+			out += ";base2=" + gen.Hex(again)
+		}
 		return nil
-	})
+	}
+	app.Get("/p", h)
+	handler := app.Handler()
+	return func(fctx *fasthttp.RequestCtx) string {
+		out = ""
+		handler(fctx)
+		if out == "" {
+			return "nohandler"
+		}
+		return out
+	}
+}
+
+func observe(run func(*fasthttp.RequestCtx) string, cn connIn, raw []string) (view []string, uriHost string, obs string, ok bool) {
+	defer func() {
+		if r := recover(); r != nil {
+			obs = "panic"
+			ok = true
+		}
+	}()
 	req, good := buildRequest(cn.host, raw)
 	if !good {
 		return nil, "", "", false
@@ -143,11 +164,7 @@ func observe(c cfgIn, cn connIn, raw []string) (view []string, uriHost string, o
 	req.CopyTo(&fctx.Request)
 	req.Header.VisitAll(func(k, v []byte) { view = append(view, string(k), string(v)) })
 	uriHost = string(req.URI().Host())
-	app.Handler()(&fctx)
-	if out == "" {
-		out = "nohandler"
-	}
-	return view, uriHost, out, true
+	return view, uriHost, run(&fctx), true
 }
 
 func peerInfo(cn connIn) string {
@@ -166,30 +183,26 @@ func proxyInfo(proxies []string) string {
 	if len(proxies) == 0 {
 		return "-"
 	}
+	// both parsers are run on every entry; which result counts is decided by the model (fileProxy),
+	// as handleTrustedProxy decides it in fiber
 	out := make([]string, len(proxies))
 	for i, p := range proxies {
-		if strings.Contains(p, "/") {
-			_, n, err := net.ParseCIDR(p)
-			if err != nil {
-				out[i] = "bad"
-			} else {
-				out[i] = "cidr:" + gen.Hex(string(n.IP)) + ":" + gen.Hex(string(n.Mask))
-			}
-		} else {
-			ip := net.ParseIP(p)
-			if ip == nil {
-				out[i] = "bad"
-			} else {
-				out[i] = "ip:" + gen.Hex(ip.String()) + ":" + gen.Hex(string(ip.To16()))
-			}
+		ip16, canon, nip, mask := "-", "-", "-", "-"
+		if ip := net.ParseIP(p); ip != nil {
+			ip16, canon = gen.Hex(string(ip.To16())), gen.Hex(ip.String())
 		}
+		if _, n, err := net.ParseCIDR(p); err == nil {
+			nip, mask = gen.Hex(string(n.IP)), gen.Hex(string(n.Mask))
+		}
+		out[i] = "p:" + ip16 + ":" + canon + ":" + nip + ":" + mask
 	}
 	return strings.Join(out, "|")
 }
 
 func emit(w *gen.Writer, id string, c cfgIn, cn connIn, rawA, rawB []string) bool {
-	viewA, uhA, obsA, okA := observe(c, cn, rawA)
-	viewB, uhB, obsB, okB := observe(c, cn, rawB)
+	run := newApp(c, cn.off)
+	viewA, uhA, obsA, okA := observe(run, cn, rawA)
+	viewB, uhB, obsB, okB := observe(run, cn, rawB)
 	if !okA || !okB {
 		w.Count("unparsable-request")
 		return false
